@@ -492,11 +492,13 @@ class Parse:
                 count = self.spec_value(f["count"], vals, cur)
                 if isinstance(count, bool):
                     count = int(count)
-                if not isinstance(count, int):
-                    raise self.err("count", "count is not an integer: %r" % (count,))
             if f.get("when") is not None:
+                # a false when-condition gives an empty list whatever the count is (C08); the count only has to be an
+                # integer when elements are actually parsed
                 if (count is not None and count <= 0) or not self.cond_value(f["when"], vals, cur, pkt):
                     return cur
+            if count is not None and not isinstance(count, int):
+                raise self.err("count", "count is not an integer: %r" % (count,))
         except (ModelError, Unspecified):
             raise
         except Exception as e:
